@@ -53,13 +53,18 @@ type dfs struct {
 	aborted  bool
 	dups     bool
 	fixed    []dkey // forced prefix
+	skip     bool   // the variant with a silent round 3
 }
 
 func (x *dfs) fresh() *sim.Net {
 	n := sim.New(vk.NewRand(1))
 	n.KeepLog = false
 	for _, id := range x.ids {
-		h, err := protocol.NewMultiHandler(detproto.Start(id, x.ids, x.seed), []byte("c07"))
+		sf := detproto.Start(id, x.ids, x.seed)
+		if x.skip {
+			sf = detproto.StartSkip(id, x.ids, x.seed)
+		}
+		h, err := protocol.NewMultiHandler(sf, []byte("c07"))
 		if err != nil {
 			panic(err)
 		}
@@ -229,8 +234,8 @@ func (x *dfs) explore(prefix []dkey, live *sim.Net, sleep []dkey) {
 	}
 }
 
-func c07InOrder(ids []party.ID, seed []byte) map[party.ID][]byte {
-	x := &dfs{ids: ids, seed: seed}
+func c07InOrder(ids []party.ID, seed []byte, skip bool) map[party.ID][]byte {
+	x := &dfs{ids: ids, seed: seed, skip: skip}
 	n := x.fresh()
 	n.Run()
 	out := map[party.ID][]byte{}
@@ -247,10 +252,14 @@ func c07InOrder(ids []party.ID, seed []byte) map[party.ID][]byte {
 
 // c07DFS explores the sub-tree below a forced first delivery (index `branch` of the initially enabled set).
 func c07DFS(t *vk.T, n, maxRound, branch int, dups bool, budget int64) {
+	c07DFSx(t, n, maxRound, branch, dups, budget, false)
+}
+
+func c07DFSx(t *vk.T, n, maxRound, branch int, dups bool, budget int64, skip bool) {
 	ids := []party.ID{"a", "b", "c", "d"}[:n]
 	seed := []byte{byte(n), byte(maxRound)}
-	x := &dfs{t: t, ids: ids, seed: seed, maxRound: maxRound, orders: map[string]bool{}, dups: dups, budget: budget}
-	x.want = c07InOrder(ids, seed)
+	x := &dfs{t: t, ids: ids, seed: seed, maxRound: maxRound, orders: map[string]bool{}, dups: dups, budget: budget, skip: skip}
+	x.want = c07InOrder(ids, seed, skip)
 	if x.want == nil {
 		t.Violation("detproto|in-order-run-failed", "the in-order run of the deterministic protocol did not complete (n=%d)", n)
 		return
@@ -678,6 +687,16 @@ func c07Cases(env vk.Env) []vk.Case {
 		b := b
 		budget := int64(env.Pick(1500, 25000))
 		cs = append(cs, vk.Case{ID: fmt.Sprintf("dfs/n3/r2-3/branch%d", b), Run: func(t *vk.T) { c07DFS(t, 3, 3, b, false, budget) }})
+	}
+	// the variant with a silent round 3 (messages can arrive two rounds early): n=2 complete, n=3 budgeted
+	for b := 0; b < 4; b++ {
+		b := b
+		cs = append(cs, vk.Case{ID: fmt.Sprintf("dfs-silent-round/n2/branch%d", b), Run: func(t *vk.T) { c07DFSx(t, 2, 4, b, true, 0, true) }})
+	}
+	for b := 0; b < 12; b++ {
+		b := b
+		budget := int64(env.Pick(300, 10000))
+		cs = append(cs, vk.Case{ID: fmt.Sprintf("dfs-silent-round/n3/branch%d", b), Run: func(t *vk.T) { c07DFSx(t, 3, 4, b, false, budget, true) }})
 	}
 	// n=3 all rounds: budgeted
 	for b := 0; b < 12; b++ {
